@@ -19,7 +19,7 @@ open DS.Peg DS.Gen.Opcodes
 /-- the engine's environment for an input; `custom` = the registered custom dice parsers (match length per offset) -/
 def envOf (input : Array Nat) (maxCnt : Nat) (custom : Nat → Nat := fun _ => 0) : Env :=
   { input := input, rules := DS.Gen.Grammar.rules, acts := DS.Gen.Actions.acts, nodeCount := DS.Gen.Grammar.nodeCount,
-    tables := DS.Gen.Unicode.tables, bpush := op_typeBlockPush, bpop := op_typeBlockPop, jmp := op_typeJmp, maxCnt := maxCnt,
+    tables := DS.Gen.Unicode.tables, bpush := op_typeBlockPush, bpop := op_typeBlockPop, fpush := op_typeFStringBlockPush, fpop := op_typeFStringBlockPop, jmp := op_typeJmp, maxCnt := maxCnt,
     custom := custom, customOp := op_typeCustomDice }
 
 def ge : GEnv := (envOf #[] 0).genv
